@@ -10,6 +10,7 @@ import (
 	"crypto/tls"
 	"fmt"
 	"net/http"
+	"net/textproto"
 
 	"github.com/pkg/errors"
 	"github.com/ysugimoto/falco/v2/interpreter/exception"
@@ -60,16 +61,19 @@ func SendRequest(req *Request) (*Response, error) {
 // and check key existence whether header value is empty or notset.
 type headerKeyStore map[string]struct{}
 
+// Header names are case-insensitive: the store is keyed by the canonical spelling,
+// the same one net/http.Header uses.
+
 // Distinguish whether header is actually assigned or not
 func (h headerKeyStore) IsAssigned(name string) bool {
-	_, v := h[name]
+	_, v := h[textproto.CanonicalMIMEHeaderKey(name)]
 	return v
 }
 
 func (h headerKeyStore) Assign(name string) {
-	h[name] = struct{}{}
+	h[textproto.CanonicalMIMEHeaderKey(name)] = struct{}{}
 }
 
 func (h headerKeyStore) Unassign(name string) {
-	delete(h, name)
+	delete(h, textproto.CanonicalMIMEHeaderKey(name))
 }
